@@ -38,7 +38,7 @@ def cases(ctx):
     for _ in range(ctx.n(2400, 120000)):
         cmd = cmds[k % len(cmds)]
         k += 1
-        c = cmdgen.gen_case(rng, cmd, dtypes=arr.DTYPES_Q, max_cells=48)
+        c = cmdgen.gen_case(rng, cmd, dtypes=arr.DTYPES_Q, max_cells=48, offset=cmd in cmdgen.STATS and rng.random() < 0.2)
         n = len(c["inputs"][0]["data"])
         perm = list(range(n))
         rng.shuffle(perm)
@@ -49,6 +49,10 @@ def cases(ctx):
     for i in range(ctx.n(3, 30)):
         yield {"kind": "big", "cmd": big.NAMES[(i * ctx.nshards + ctx.shard) % len(big.NAMES)], "shape": list(big.SHAPES[(i + ctx.shard) % len(big.SHAPES)]),
                "rseed": rng.randrange(10 ** 9), "masked": i % 4 != 3}
+    for i in range(ctx.n(3, 30)):
+        j = i * ctx.nshards + ctx.shard
+        yield {"kind": "bigstat", "cmd": BIGSTAT[j % len(BIGSTAT)], "shape": list(big.SHAPES[(j // 2) % len(big.SHAPES)]), "rseed": rng.randrange(10 ** 9),
+               "mask": ["band-first", "random", "band-last", "none", "band-first"][j % 5], "gradient": j % 2 == 0}
     from mpv import models
     for i in range(ctx.n(200, 10000)):
         n = rng.choice([4, 6, 8, 12, 16, 24])
@@ -60,6 +64,68 @@ def cases(ctx):
         m = models.gen_model(rng, n_ops=rng.randint(2, 10), sinks=rng.random() < 0.5, libs="nc", table=models.gen_table(rng, shape=(n,)), cmds=safe)
         m["libs"] = "nc"
         yield {"kind": "model", "model": m, "shape_a": [n], "shape_b": list(rng.choice([f for f in fs if len(f) > 1]))}
+
+
+# commands whose result depends on whole-array statistics (minimum / maximum / mean / standard deviation)
+BIGSTAT = [("Normalize", {}), ("CvtToFuzzy", {}), ("CvtToFuzzy", {"Direction": "HighToLow"}), ("CvtToFuzzy", {"TrueThreshold": 400}), ("NormalizeMeanToMid", {"IgnoreZeros": False, "NormalValues": [0, 1, 2, 3, 4]}),
+           ("CvtToFuzzyMeanToMid", {"IgnoreZeros": True, "FuzzyValues": [-1, -0.5, 0, 0.5, 1]}), ("NormalizeZScore", {"TrueThresholdZScore": 1, "FalseThresholdZScore": -1}),
+           ("CvtToFuzzyZScore", {"TrueThresholdZScore": 0.5, "FalseThresholdZScore": -0.75}), ("Normalize", {"StartVal": 2, "EndVal": 10})]
+
+
+def run_bigstat(ctx, case):
+    """Whole-array statistics on a raster of more than a million cells, with a no-data band at either end: the same cells in
+    reverse order (and the rows of the grid in reverse order) must give the same results, cell for cell."""
+    (cmd, params), shape = case["cmd"], tuple(case["shape"])
+    rs = numpy.random.RandomState(case["rseed"] % (2 ** 31))
+    n = int(numpy.prod(shape))
+    data = numpy.round(rs.uniform(-1000.0, 1000.0, size=n) * 8) / 8.0
+    if case["gradient"]:
+        data = numpy.sort(data)
+    mask = numpy.zeros(n, bool)
+    band = 300000 + int(rs.randint(0, 5000))
+    if case["mask"] == "band-first":
+        mask[:band] = True
+    elif case["mask"] == "band-last":
+        mask[-band:] = True
+    elif case["mask"] == "random":
+        mask = rs.uniform(size=n) < 0.1
+    ctx.feature(("bigstat", cmd, tuple(sorted(params)), len(shape), case["mask"], case["gradient"]))
+
+    def run(d, m):
+        a = numpy.ma.array(d.reshape(shape).copy(), mask=m.reshape(shape).copy()) if case["mask"] != "none" else numpy.ma.array(d.reshape(shape).copy())
+        return arr.run_cmd(cmd, [a], params)[0]
+    base = run(data, mask)
+    ctx.count("large_rasters_checked")
+    variants = [("reversed-cells", data[::-1], mask[::-1], lambda r: r.reshape(-1)[::-1])]
+    if len(shape) >= 2:
+        rows = numpy.arange(n).reshape(shape)[::-1].reshape(-1)        # the grid's first-axis slices in reverse order
+        inv = numpy.argsort(rows)
+        variants.append(("reversed-rows", data[rows], mask[rows], lambda r: r.reshape(-1)[inv]))
+    for label, d2, m2, back in variants:
+        other = run(d2, m2)
+        ctx.count("permutation_checks")
+        if base.ok != other.ok or (not base.ok and type(base.exc) is not type(other.exc)):
+            ctx.fail("%s:permutation-changes-outcome:large-raster" % cmd, {"variant": label, "base": base.err and (base.inner() or base.err), "other": other.err and (other.inner() or other.err), "shape": list(shape), "mask": case["mask"]})
+            return
+        if not base.ok:
+            continue
+        if not isinstance(base.value, numpy.ndarray) or base.value.shape != shape or other.value.shape != shape:
+            ctx.fail("%s:shape:large-raster" % cmd, {"got": list(getattr(base.value, "shape", [])), "want": list(shape)})
+            return
+        bm, bd = numpy.ma.getmaskarray(base.value).reshape(-1), numpy.ma.getdata(base.value).reshape(-1)
+        om, od = back(numpy.ma.getmaskarray(other.value)), back(numpy.ma.getdata(other.value))
+        if (bm != om).any():
+            i = int(numpy.flatnonzero(bm != om)[0])
+            ctx.fail("%s:cells-not-independent:large-raster:missing-cells-differ" % cmd, {"variant": label, "cell": i, "cells_differing": int((bm != om).sum()), "shape": list(shape), "mask": case["mask"], "params": params})
+            return
+        tol = 1e-9 if cmd in cmdgen.ZSCORE else 0.0
+        with numpy.errstate(invalid="ignore"):
+            bad = (numpy.abs(bd - od) > tol * numpy.maximum(1.0, numpy.abs(bd))) & ~bm
+            bad |= (numpy.isnan(bd) != numpy.isnan(od)) & ~bm
+        if bad.any():
+            i = int(numpy.flatnonzero(bad)[0])
+            ctx.fail("%s:cells-not-independent:large-raster:value-differs" % cmd, {"variant": label, "cell": i, "base": float(bd[i]), "other": float(od[i]), "cells_differing": int(bad.sum()), "shape": list(shape), "mask": case["mask"], "params": params})
+            return
 
 
 def run_big(ctx, case):
@@ -163,6 +229,8 @@ def run_case(ctx, case):
         return run_model(ctx, case)
     if case.get("kind") == "big":
         return run_big(ctx, case)
+    if case.get("kind") == "bigstat":
+        return run_bigstat(ctx, case)
     cmd, params = case["cmd"], case["params"]
     fuzzy_in = cmd in arr.FUZZY_INPUT
     base_specs = case["inputs"]
